@@ -724,12 +724,31 @@ func (u *Unit) applyContract(fr *Frame, ct *Contract, name string, c *ssa.CallCo
 			for _, h := range keepN {
 				keepT = append(keepT, u.heapNow(st, h))
 			}
+			// exempt heaps nothing has looked at yet (sort unknown): when they are first looked at
+			// they have the version they had before this call
+			prev := map[string]string{}
+			for h := range excl {
+				if _, ok := u.heapSort[h]; ok {
+					continue
+				}
+				if t, ok := st.pending[h]; ok {
+					prev[h] = t
+				} else {
+					prev[h] = st.epoch
+				}
+			}
 			for _, a := range args {
 				u.havocReachableCell(fr, st, a)
 			}
 			u.havocAllCall(fr, st, name)
 			for i, h := range keepN {
 				st.heaps[h] = keepT[i]
+			}
+			for h, t := range prev {
+				if st.pending == nil {
+					st.pending = map[string]string{}
+				}
+				st.pending[h] = t
 			}
 			break
 		}
